@@ -98,6 +98,10 @@ def render_doc(prog, s):
     m = find_method(prog, s["part"], s["method"]) if s["method"] else None
     sh = s["shape"]
     if sh == "obj1":
+        if str(s["body"]).startswith("utf8pad"):      # ~1.2 kB of four-byte characters after 0..3 one-byte characters
+            return '{"%s":{"pad":"%s%s"}}' % (s["key"], "a" * int(s["body"][-1]), "\U0001F600" * 300)
+        if s["body"] == "null":
+            return '{"%s":null}' % s["key"]
         if m is None:
             return '{"%s":{}}' % s["key"]
         if s["body"] == "notobj":
@@ -542,18 +546,18 @@ def program_src(prog):
     o.append("    fn decode_wrapper(kind: &str, doc: &[u8]) -> Option<verif_rrt::DecodeRes> {\n        match kind {\n")
     for k in ENUM_KINDS:
         arms = "".join("%s::%s(_) => \"%s\", " % (wrap_path(prog, k), variant_of_part(p), p["id"]) for p in prog["parts"])
-        o.append("            \"%s\" => Some(from_json::<%s>(doc).map(|m| {{ let p = match &m {{ %s}}; (p, to_json_vec(&m).unwrap()) }}).map_err(|e| e.to_string())),\n"
+        o.append("            \"%s\" => Some(from_json::<%s>(doc).map(|m| {{ let p = match &m {{ %s}}; (p, verif_rrt::reencode(&m)) }}).map_err(|e| e.to_string())),\n"
                  .replace("{{", "{").replace("}}", "}") % (k, wrap_path(prog, k), arms))
     o.append("            _ => None,\n        }\n    }\n\n")
     o.append("    fn decode_part(part: &str, kind: &str, doc: &[u8]) -> Option<Result<Vec<u8>, String>> {\n        match (part, kind) {\n")
     for p in prog["parts"]:
         for k in ENUM_KINDS:
-            o.append("            (\"%s\", \"%s\") => Some(from_json::<%s>(doc).map(|m| to_json_vec(&m).unwrap()).map_err(|e| e.to_string())),\n" % (p["id"], k, msg_path(p, k)))
+            o.append("            (\"%s\", \"%s\") => Some(from_json::<%s>(doc).map(|m| verif_rrt::reencode(&m)).map_err(|e| e.to_string())),\n" % (p["id"], k, msg_path(p, k)))
     o.append("            _ => None,\n        }\n    }\n\n")
     o.append("    fn decode_struct(kind: &str, doc: &[u8]) -> Option<Result<Vec<u8>, String>> {\n        match kind {\n")
     for k in ("instantiate", "migrate"):
         if has(k):
-            o.append("            \"%s\" => Some(from_json::<%s>(doc).map(|m| to_json_vec(&m).unwrap()).map_err(|e| e.to_string())),\n" % (k, wrap_path(prog, k)))
+            o.append("            \"%s\" => Some(from_json::<%s>(doc).map(|m| verif_rrt::reencode(&m)).map_err(|e| e.to_string())),\n" % (k, wrap_path(prog, k)))
     o.append("            _ => None,\n        }\n    }\n\n")
     eps = set(prog["entry_points"])
     o.append("    fn call_ep(kind: &str, deps: &mut Deps, env: Env, info: MessageInfo, doc: &[u8]) -> CallOut {\n        match kind {\n")
